@@ -202,17 +202,18 @@ Uec(c) ==
   /\ UNCHANGED <<ast, apc, cur, nxt, pst, perr, dead, sconc, cfgvars, stops, concs, raises, run2s>>
 
 -----------------------------------------------------------------------------
+\* (quantified over the constant 1..NP = Pipes of the design check, so that TLC reports coverage per action)
 SysNext ==
   \/ Run \/ PickSkip \/ PickBegin \/ Finish
-  \/ \E p \in Pipes : Take(p) \/ SrcNone(p) \/ Begin(p) \/ PReturnOK(p) \/ PFail(p)
-  \/ \E p \in Pipes, i \in Items : EndOK(p, i) \/ BeginNext(p, i)
+  \/ \E p \in 1..NP : Take(p) \/ SrcNone(p) \/ Begin(p) \/ PReturnOK(p) \/ PFail(p)
+  \/ \E p \in 1..NP, i \in Items : EndOK(p, i) \/ BeginNext(p, i)
 
 EnvNext ==
   \/ StopAccepted \/ StopIgnored \/ RunRejected
   \/ \E c \in 0..CMax : SetConc(c)
   \/ \E c \in UecVals : Uec(c)
-  \/ \E p \in Pipes, x \in XUse : SrcRaise(p, x)
-  \/ \E p \in Pipes, i \in Items, x \in XUse : TaskRaise(p, i, x)
+  \/ \E p \in 1..NP, x \in XUse : SrcRaise(p, x)
+  \/ \E p \in 1..NP, i \in Items, x \in XUse : TaskRaise(p, i, x)
 
 Next == SysNext \/ EnvNext
 
